@@ -20,19 +20,15 @@
 package main
 
 import (
-	"crypto/sha1"
-	"encoding/hex"
-	"encoding/json"
 	"fmt"
 	"os"
-	"path/filepath"
-	"runtime/debug"
 	"sort"
 	"strconv"
 	"strings"
 	"sync"
 	"time"
 
+	"wa-lang.org/wa/internal/zzverif/hrun"
 	"wa-lang.org/wa/internal/zzverif/mc"
 	"wa-lang.org/wa/internal/zzverif/wrun"
 )
@@ -51,12 +47,30 @@ type kind struct {
 	NV      int      // number of distinct values per key (2: set v1 / set v2; 1: insert only)
 	Thin    bool     // full observation only after the last operation of a history, a thin one (comma-ok of the operated key, len) between operations
 	L       int      // maximal history length
+	PreLen  int      // histories of length <= PreLen are also run on every pre-filled map: all K keys inserted (value v1) in each of the K! orders
 	Chunk   int64    // histories per case
 	Block   int64    // histories per printed hash line
 }
 
 func (k *kind) K() int   { return len(k.Keys) }
 func (k *kind) B() int64 { return int64(len(k.Keys) * (k.NV + 1)) }
+
+func fact(n int) int64 {
+	f := int64(1)
+	for i := 2; i <= n; i++ {
+		f *= int64(i)
+	}
+	return f
+}
+
+// total is the size of the index space at length n: B^n histories on the empty map, preceded
+// (index / B^n = 1 .. K!) by the same histories on each pre-filled map when n <= PreLen.
+func (k *kind) total(n int) int64 {
+	if n <= k.PreLen {
+		return (1 + fact(k.K())) * pow(k.B(), n)
+	}
+	return pow(k.B(), n)
+}
 
 func pow(b int64, n int) int64 {
 	r := int64(1)
@@ -75,12 +89,12 @@ func kinds(thorough bool) []*kind {
 	}
 	var ks []*kind
 	if !thorough {
-		ks = append(ks, &kind{Name: "int32", KeyType: "int32", NV: 2, L: 5,
+		ks = append(ks, &kind{Name: "int32", KeyType: "int32", NV: 2, L: 5, PreLen: 3,
 			Keys: []string{"-2147483648", "-7", "0", "3", "2147483647"}})
 	} else {
-		ks = append(ks, &kind{Name: "int32", KeyType: "int32", NV: 1, L: 7, Thin: true,
+		ks = append(ks, &kind{Name: "int32", KeyType: "int32", NV: 1, L: 7, Thin: true, PreLen: 3,
 			Keys: []string{"-2147483648", "-7", "0", "3", "4", "1000000", "2147483647"}})
-		ks = append(ks, &kind{Name: "int32-2v", KeyType: "int32", NV: 2, L: 6,
+		ks = append(ks, &kind{Name: "int32-2v", KeyType: "int32", NV: 2, L: 6, PreLen: 4,
 			Keys: []string{"-2147483648", "-7", "0", "3", "2147483647"}})
 	}
 	ks = append(ks,
@@ -105,12 +119,25 @@ func kinds(thorough bool) []*kind {
 			Keys: []string{"int32(1)", "int32(2)", "int64(1)", `"1"`, "true", "float64(1)", `SK{1, "a"}`}},
 	)
 	for _, k := range ks {
+		if k.PreLen == 0 {
+			// pre-filled variants for the other kinds: K! x B^PreLen stays below ~10^6
+			k.PreLen = 2
+			if thorough {
+				k.PreLen = 3
+			}
+			if k.K() >= 7 {
+				k.PreLen--
+			}
+			if k.K() <= 2 {
+				k.PreLen = k.L
+			}
+		}
 		if k.Chunk == 0 {
-			k.Chunk = 16384
+			k.Chunk = 4096
 			k.Block = 256
 			if thorough {
-				k.Chunk = 65536
-				k.Block = 2048
+				k.Chunk = 16384
+				k.Block = 1024
 			}
 		}
 	}
@@ -128,6 +155,7 @@ const K = @K@
 const NV = @NV@
 const B = @B@
 const THIN = @THIN@
+const FACTK = @FACTK@
 
 var keys [K]@KT@
 var keysReady bool
@@ -160,6 +188,38 @@ func runHist(n int32, idx int64, h uint64, verbose bool) uint64 {
 	div := int64(1)
 	for i := int32(1); i < n; i++ {
 		div = div * B
+	}
+	// idx / B^n selects the initial map: 0 = empty, p > 0 = all keys inserted in the order given by
+	// permutation p-1 (lexicographic, factorial number system)
+	pre := idx / (div * B)
+	idx = idx % (div * B)
+	if pre > 0 {
+		var used [K]bool
+		c := pre - 1
+		f := int64(FACTK)
+		for i := int32(K); i >= 1; i-- {
+			f = f / int64(i)
+			d := int32(c / f)
+			c = c % f
+			k := int32(0)
+			for k < K {
+				if !used[k] {
+					if d == 0 {
+						break
+					}
+					d--
+				}
+				k++
+			}
+			used[k] = true
+			nv := (k+1)*10 + 1
+			m[keys[k]] = nv
+			has[k] = true
+			val[k] = nv
+			if verbose {
+				println("P", k)
+			}
+		}
 	}
 	for step := int32(0); step < n; step++ {
 		op := int32((idx / div) % B)
@@ -360,7 +420,7 @@ func genSource(kd *kind, cases []caseSpec) string {
 	s := tmpl
 	for _, r := range [][2]string{
 		{"@IMPORTS@", imps.String()}, {"@DECLS@", kd.Decls}, {"@K@", strconv.Itoa(kd.K())}, {"@NV@", strconv.Itoa(kd.NV)},
-		{"@B@", strconv.FormatInt(kd.B(), 10)}, {"@THIN@", strconv.FormatBool(kd.Thin)}, {"@KT@", kd.KeyType}, {"@INIT@", init.String()}, {"@EXTRA@", kd.Extra},
+		{"@B@", strconv.FormatInt(kd.B(), 10)}, {"@THIN@", strconv.FormatBool(kd.Thin)}, {"@FACTK@", strconv.FormatInt(fact(kd.K()), 10)}, {"@KT@", kd.KeyType}, {"@INIT@", init.String()}, {"@EXTRA@", kd.Extra},
 	} {
 		s = strings.ReplaceAll(s, r[0], r[1])
 	}
@@ -368,86 +428,7 @@ func genSource(kd *kind, cases []caseSpec) string {
 }
 
 // ---------------------------------------------------------------------------------------------
-// worker: the Wa side of one program
-
-type Job struct {
-	ID        string
-	Src       string
-	N         int
-	Expect    []string // when set: stop after the first case whose outcome is not "ok" with this output
-	HorizonMs int64    // per case
-}
-
-type JobResult struct {
-	Res   []wrun.CaseResult // Status "ok", "trap", "hang", "skipped"
-	Ms    []int64           // wall time per case
-	Err   string
-	WaSrc string
-}
-
-var (
-	cachedKey  string
-	cachedProg *wrun.WaProg
-)
-
-func handleJob(raw json.RawMessage) interface{} {
-	var j Job
-	if err := json.Unmarshal(raw, &j); err != nil {
-		return JobResult{Err: err.Error()}
-	}
-	sum := sha1.Sum([]byte(j.Src))
-	key := hex.EncodeToString(sum[:])
-	if cachedKey != key {
-		if cachedProg != nil {
-			cachedProg.Close()
-		}
-		cachedKey, cachedProg = "", nil
-		wa, err := wrun.Go2Wa(j.Src)
-		if err != nil {
-			return JobResult{Err: err.Error()}
-		}
-		p, err := wrun.CompileWa("batch.wa", wa)
-		if err != nil {
-			return JobResult{Err: err.Error(), WaSrc: wa}
-		}
-		cachedKey, cachedProg = key, p
-	}
-	p := cachedProg
-	out := JobResult{Res: make([]wrun.CaseResult, j.N), Ms: make([]int64, j.N)}
-	for i := range out.Res {
-		out.Res[i].Status = "skipped"
-	}
-	for i := 0; i < j.N; i++ {
-		fmt.Fprintf(os.Stderr, "C13PROGRESS %s case %d\n", j.ID, i)
-		t0 := time.Now()
-		done := make(chan wrun.CaseResult, 1)
-		// A call that spins inside compiled wasm code is not preemptible, so a garbage collection
-		// started while it spins would stop this process for good: no collections during a call.
-		gcp := debug.SetGCPercent(-1)
-		go func(p *wrun.WaProg) { done <- p.Call("case_" + strconv.Itoa(i)) }(p)
-		select {
-		case r := <-done:
-			debug.SetGCPercent(gcp)
-			out.Res[i] = r
-			out.Ms[i] = time.Since(t0).Milliseconds()
-		case <-time.After(time.Duration(j.HorizonMs) * time.Millisecond):
-			// The call keeps spinning and cannot be stopped: answer (the remaining cases stay
-			// "skipped" and are re-queued by the caller) and retire this process. A job already
-			// handed to it comes back as "crash" and is re-queued as well.
-			out.Res[i] = wrun.CaseResult{Status: "hang", Err: fmt.Sprintf("no return within %d ms", j.HorizonMs)}
-			out.Ms[i] = time.Since(t0).Milliseconds()
-			go func() { time.Sleep(500 * time.Millisecond); os.Exit(3) }()
-			return out
-		}
-		if j.Expect != nil && (out.Res[i].Status != "ok" || out.Res[i].Out != j.Expect[i]) {
-			break
-		}
-	}
-	return out
-}
-
-// ---------------------------------------------------------------------------------------------
-// running programs on both sides
+// running programs on both sides (engine/hrun: per-case horizons kept by the worker)
 
 type program struct {
 	kd    *kind
@@ -456,108 +437,71 @@ type program struct {
 	// results
 	goRes []wrun.CaseResult
 	goErr error
-	wa    JobResult
-	waErr string // pool-level failure (crash / hang of the whole job / compile error)
-}
-
-var jobSeq int64
-var jobMu sync.Mutex
-
-// poolHorizonFor is the safety net above the per-case horizons kept by the workers themselves.
-func poolHorizonFor(ps []*program) time.Duration {
-	var hz time.Duration
-	for _, p := range ps {
-		var t time.Duration
-		for _, c := range p.cases {
-			t += chunkHorizon(c)
-		}
-		hz = max(hz, t)
-	}
-	return hz + 10*time.Minute
+	wa    hrun.JobResult
+	waErr string // compile error, or the worker crashed repeatedly
 }
 
 // runPrograms runs every program on Go and on Wa. stopFirst: Wa stops at the first deviating case.
 func runPrograms(r *mc.Run, pool *mc.Pool, ps []*program, horizon func(c caseSpec) time.Duration, stopFirst bool) {
-	for _, p := range ps {
+	hp := make([]*hrun.Program, len(ps))
+	for i, p := range ps {
 		p.src = genSource(p.kd, p.cases)
-	}
-	goDone := make(chan struct{})
-	goRun := func() {
-		mc.ParallelFor(len(ps), func(i int) {
-			ps[i].goRes, ps[i].goErr = wrun.GoRef(ps[i].src, len(ps[i].cases))
-		})
-		close(goDone)
-	}
-	if stopFirst {
-		goRun() // the expectation is part of the job
-	} else {
-		go goRun()
-	}
-	todo := make([]int, len(ps))
-	for i := range todo {
-		todo[i] = i
-	}
-	for attempt := 0; len(todo) > 0 && attempt < 4; attempt++ {
-		var again []int
-		var mu sync.Mutex
-		err := pool.Run(len(todo), func(k int) interface{} {
-			p := ps[todo[k]]
-			jobMu.Lock()
-			jobSeq++
-			id := fmt.Sprintf("j%d", jobSeq)
-			jobMu.Unlock()
-			var hz int64
-			for _, c := range p.cases {
-				hz = max(hz, horizon(c).Milliseconds())
-			}
-			j := Job{ID: id, Src: p.src, N: len(p.cases), HorizonMs: hz}
-			if stopFirst && p.goErr == nil {
-				for _, g := range p.goRes {
-					j.Expect = append(j.Expect, g.Out)
-				}
-			}
-			return j
-		}, poolHorizonFor(ps), func(res mc.Result) {
-			p := ps[todo[res.Index]]
-			if res.Status != "ok" {
-				mu.Lock()
-				again = append(again, todo[res.Index])
-				mu.Unlock()
-				p.waErr = "worker " + res.Status + ": " + tailStr(res.Stderr, 800)
-				return
-			}
-			p.waErr = ""
-			if err := json.Unmarshal(res.Out, &p.wa); err != nil {
-				p.waErr = "bad worker output: " + err.Error()
-			} else if p.wa.Err != "" {
-				p.waErr = p.wa.Err
-			}
-		})
-		if err != nil {
-			r.HarnessError("pool: %v", err)
+		var hz time.Duration
+		for _, c := range p.cases {
+			hz = max(hz, horizon(c))
 		}
-		todo = again
+		hp[i] = &hrun.Program{Src: p.src, N: len(p.cases), Horizon: hz}
 	}
-	<-goDone
-}
-
-func tailStr(s string, n int) string {
-	if len(s) > n {
-		return s[len(s)-n:]
+	hrun.Run(r, pool, hp, stopFirst, !stopFirst)
+	for i, p := range ps {
+		p.goRes, p.goErr, p.wa, p.waErr = hp[i].GoRes, hp[i].GoErr, hp[i].Wa, hp[i].WaErr
 	}
-	return s
 }
 
 // ---------------------------------------------------------------------------------------------
 // history rendering and classification
 
-func digits(kd *kind, n int, idx int64) []int {
-	ds := make([]int, n)
+// digits decodes a history index at length n into the operations applied: the pre-fill inserts
+// (npre of them, as "set v1" digits) followed by the n enumerated operations.
+func digits(kd *kind, n int, idx int64) (ds []int, npre int) {
+	span := pow(kd.B(), n)
+	pre := idx / span
+	idx %= span
+	if pre > 0 {
+		used := make([]bool, kd.K())
+		c := pre - 1
+		f := fact(kd.K())
+		for i := kd.K(); i >= 1; i-- {
+			f /= int64(i)
+			d := int(c / f)
+			c %= f
+			k := 0
+			for ; k < kd.K(); k++ {
+				if !used[k] {
+					if d == 0 {
+						break
+					}
+					d--
+				}
+			}
+			used[k] = true
+			ds = append(ds, k)
+		}
+		npre = len(ds)
+	}
+	rest := make([]int, n)
 	for i := n - 1; i >= 0; i-- {
-		ds[i] = int(idx % kd.B())
+		rest[i] = int(idx % kd.B())
 		idx /= kd.B()
 	}
-	return ds
+	return append(ds, rest...), npre
+}
+
+// prefixIndex is the index, at length s, of the first s enumerated operations of history idx
+// (length n) on the same initial map.
+func prefixIndex(kd *kind, n int, idx int64, s int) int64 {
+	span := pow(kd.B(), n)
+	return (idx/span)*pow(kd.B(), s) + (idx%span)/pow(kd.B(), n-s)
 }
 
 func opText(kd *kind, d int) string {
@@ -574,6 +518,11 @@ func histText(kd *kind, ds []int) string {
 		parts = append(parts, opText(kd, d))
 	}
 	return strings.Join(parts, "; ")
+}
+
+func histTextOf(kd *kind, n int, idx int64) string {
+	ds, _ := digits(kd, n, idx)
+	return histText(kd, ds)
 }
 
 // opClass names the kind of the operation ds[step] relative to the finite map reached by
@@ -626,6 +575,13 @@ func firstDiff(kd *kind, goOut, waOut string, waStatus string) (obs, desc string
 			return "key#" + f
 		}
 		return kd.Keys[i]
+	}
+	if waStatus == "hang" {
+		// no partial output exists; the previous prefix completed, so it is the last operation
+		return "no-return", "the last operation (or an observation after it) does not return"
+	}
+	if waStatus == "crash" {
+		return "engine-crash", "the last operation (or an observation after it) takes the engine process down"
 	}
 	for i, g := range gl {
 		if i >= len(wl) || (i == len(wl)-1 && waStatus != "ok" && wl[i] != g) {
@@ -733,7 +689,7 @@ func chunkHorizon(c caseSpec) time.Duration {
 
 func main() {
 	if mc.IsWorker() {
-		mc.WorkerMain(handleJob)
+		mc.WorkerMain(hrun.HandleJob)
 		return
 	}
 	r := mc.Start("C13")
@@ -761,9 +717,9 @@ func main() {
 	}
 	bounds := map[string]interface{}{}
 	for _, k := range ks {
-		bounds[k.Name] = map[string]interface{}{"keys": k.K(), "values_per_key": k.NV, "max_len": k.L, "alphabet": k.B(), "histories": func() (t int64) {
+		bounds[k.Name] = map[string]interface{}{"keys": k.K(), "values_per_key": k.NV, "max_len": k.L, "prefilled_maps_up_to_len": k.PreLen, "prefill_orders": fact(k.K()), "alphabet": k.B(), "histories": func() (t int64) {
 			for n := 1; n <= k.L; n++ {
-				t += pow(k.B(), n)
+				t += k.total(n)
 			}
 			return
 		}()}
@@ -774,12 +730,12 @@ func main() {
 	defer pool.Close()
 
 	// level 0: all chunks of all kinds
-	casesPerProgram := mc.Pick(r, 4, 48)
+	casesPerProgram := mc.Pick(r, 16, 128)
 	var progsAll []*program
 	for _, kd := range ks {
 		var cs []caseSpec
 		for n := 1; n <= kd.L; n++ {
-			total := pow(kd.B(), n)
+			total := kd.total(n)
 			for lo := int64(0); lo < total; lo += kd.Chunk {
 				cs = append(cs, caseSpec{N: n, Lo: lo, Hi: min(total, lo+kd.Chunk), Bl: kd.Block})
 			}
@@ -805,6 +761,7 @@ func main() {
 		}
 		runPrograms(r, pool, work, chunkHorizon, false)
 		var next []*program
+		skipped := false
 		for _, p := range work {
 			if p.goErr != nil {
 				r.HarnessError("%s: Go reference failed: %v", p.kd.Name, p.goErr)
@@ -841,19 +798,18 @@ func main() {
 				if t := strings.TrimRight(w.Out, "\n"); t != "" {
 					wl = strings.Split(t, "\n")
 				}
-				if w.Status == "skipped" {
-					next = append(next, &program{kd: p.kd, cases: []caseSpec{c}})
+				if w.Status == "hang" || w.Status == "crash" {
+					// a call that did not return (or took the engine process down) leaves no partial output: the whole chunk is the bad
+					// range (refined to its first bad history); what lies behind that history in the
+					// chunk is not explored
+					badMu.Lock()
+					bad = append(bad, badRange{kd: p.kd, n: c.N, lo: c.Lo, hi: c.Hi, why: w.Status, hint: w.Status, detail: w.Err})
+					badMu.Unlock()
+					r.Cap("the rest of a chunk in which an operation does not return")
 					continue
 				}
-				if w.Status == "hang" && c.nblocks() > 1 {
-					// a call that did not return leaves no partial output: re-run block by block
-					var cs []caseSpec
-					for a := c.Lo; a < c.Hi; a += c.Bl {
-						cs = append(cs, caseSpec{N: c.N, Lo: a, Hi: min(c.Hi, a+c.Bl), Bl: c.Bl})
-					}
-					for a := 0; a < len(cs); a += 8 {
-						next = append(next, &program{kd: p.kd, cases: cs[a:min(len(cs), a+8)]})
-					}
+				if w.Status == "skipped" {
+					skipped = true
 					continue
 				}
 				for bi, gline := range gl {
@@ -883,7 +839,7 @@ func main() {
 					if wl[bi] == gline {
 						r.Distinct(gline)
 						if bi == 1 && r.WantSample() {
-							r.Sample(map[string]interface{}{"kind": p.kd.Name, "len": c.N, "block": []int64{lo, hi}, "first_history": histText(p.kd, digits(p.kd, c.N, lo)), "go_and_wa_line": gline})
+							r.Sample(map[string]interface{}{"kind": p.kd.Name, "len": c.N, "block": []int64{lo, hi}, "first_history": histTextOf(p.kd, c.N, lo), "go_and_wa_line": gline})
 						}
 						continue
 					}
@@ -893,7 +849,8 @@ func main() {
 						code, _ := strconv.Atoi(wf[3])
 						step := code/64 - 1
 						if idx >= lo && idx < hi && step >= 0 && step < c.N {
-							hint = opClass(p.kd, digits(p.kd, c.N, idx), step) + "|" + strconv.Itoa(code%64/8)
+							ds, npre := digits(p.kd, c.N, idx)
+							hint = opClass(p.kd, ds, npre+step) + "|" + strconv.Itoa(code%64/8)
 						}
 					}
 					badMu.Lock()
@@ -901,6 +858,10 @@ func main() {
 					badMu.Unlock()
 				}
 			}
+		}
+		if skipped {
+			r.Cap("deadline")
+			break
 		}
 		work = next
 	}
@@ -989,11 +950,11 @@ func refine(r *mc.Run, pool *mc.Pool, b badRange) {
 		}
 	}
 	idx := lo
-	ds := digits(kd, b.n, idx)
-	// explain: case s-1 runs the prefix of length s verbosely
+	ds, npre := digits(kd, b.n, idx)
+	// explain: case s-1 runs the first s operations (on the same initial map) verbosely
 	p := &program{kd: kd}
 	for s := 1; s <= b.n; s++ {
-		p.cases = append(p.cases, caseSpec{Explain: true, N: s, Lo: idx / pow(kd.B(), b.n-s)})
+		p.cases = append(p.cases, caseSpec{Explain: true, N: s, Lo: prefixIndex(kd, b.n, idx, s)})
 	}
 	confirm := func() (step int, obs, desc string, ok bool) {
 		runPrograms(r, pool, []*program{p}, chunkHorizon, true)
@@ -1030,16 +991,19 @@ func refine(r *mc.Run, pool *mc.Pool, b badRange) {
 			return
 		}
 	}
-	ds = ds[:step+1]
-	key := fmt.Sprintf("C13|%s-key|%s|%s", kd.Name, opClass(kd, ds, step), obs)
+	ds = ds[:npre+step+1]
+	hidx := prefixIndex(kd, b.n, idx, step+1)
+	key := fmt.Sprintf("C13|%s-key|%s|%s", kd.Name, opClass(kd, ds, npre+step), obs)
+	text := histText(kd, ds)
+	if npre > 0 {
+		text = "[map pre-filled by] " + histText(kd, ds[:npre]) + " [then] " + histText(kd, ds[npre:])
+	}
 	what := fmt.Sprintf("map[%s]int32: %s  -> after the last operation %s (history #%d of length %d, first bad history of block [%d,%d) at length %d; 6/6 runs)",
-		kd.KeyType, histText(kd, ds), desc, idx/pow(kd.B(), b.n-step-1), step+1, b.lo, b.hi, b.n)
-	dir := filepath.Join(mc.VerifDir(), "replays", "C13")
-	_ = dir
+		kd.KeyType, text, desc, hidx, step+1, b.lo, b.hi, b.n)
 	r.Report(key, what, map[string]interface{}{
-		"kind": kd.Name, "key_type": kd.KeyType, "history": strings.Split(histText(kd, ds), "; "), "length": step + 1,
-		"history_index": idx / pow(kd.B(), b.n-step-1), "alphabet": kd.B(),
+		"kind": kd.Name, "key_type": kd.KeyType, "history": strings.Split(histText(kd, ds), "; "), "prefill_operations": npre, "length": step + 1,
+		"history_index": hidx, "alphabet": kd.B(),
 		"go_output": p.goRes[step].Out, "wa_output": p.wa.Res[step].Out, "wa_status": p.wa.Res[step].Status, "wa_err": p.wa.Res[step].Err,
-		"go_source": p.src, "run": fmt.Sprintf("Case%d of go_source (Explain(%d, %d)) with Go and with wa", step, step+1, idx/pow(kd.B(), b.n-step-1)),
+		"go_source": p.src, "run": fmt.Sprintf("Case%d of go_source (Explain(%d, %d)) with Go and with wa", step, step+1, hidx),
 	})
 }
